@@ -663,7 +663,10 @@ V_C18(S, e, T, aux) ==
         IN IF rs = <<>> THEN {} ELSE
            CASE e.tx.m = "get_price" -> Tag(e.res.val.price = Last(rs).price /\ e.res.val.round_id = Len(rs), "C18.feed_latest")
              [] e.tx.m = "get_previous_price" ->
-                  Tag(Len(rs) - e.tx.a.n < 1 \/ e.res.val.price = rs[Len(rs) - e.tx.a.n].price, "C18.feed_previous")
+                  \* an answer must be the value submitted n rounds before the latest one: going back
+                  \* as many rounds as were submitted (or more) has no such value
+                  Tag(Len(rs) - e.tx.a.n >= 1 /\ e.res.val.price = rs[Len(rs) - e.tx.a.n].price
+                      /\ e.res.val.round_id = Len(rs) - e.tx.a.n, "C18.feed_previous")
              [] e.tx.m = "get_twap_price" ->
                   LET base == S.blk.t - e.tx.a.interval
                       idx == {i \in real : i = Len(rs) \/ rs[i + 1].t > base}
